@@ -579,6 +579,14 @@ skiplist_iter_next(qb_map_iter_t * i, void **value)
 static void
 skiplist_iter_free(qb_map_iter_t * i)
 {
+	struct skiplist_iter *si = (struct skiplist_iter *)i;
+
+	if (si->n != NULL) {
+		/* if free'ing the iterator before getting to the last
+		 * node make sure we de-ref the current node.
+		 */
+		skiplist_node_deref(si->n, (struct skiplist *)i->m);
+	}
 	free(i);
 }
 
